@@ -571,9 +571,19 @@ def parse_template(path):
     while i < len(raw):
         ln = raw[i]
         s = ln.strip()
+        is_block = False
         if s.startswith("//@arm "):
             s = "//@fn " + s[len("//@arm "):]
             is_arm = True
+        elif s.startswith("//@block "):
+            s = "//@fn " + s[len("//@block "):]
+            is_arm = True
+            is_block = True
+        elif s.startswith("//@stmt "):
+            # like //@block, but the extracted text starts at the regex match (e.g. a whole `for` statement)
+            s = "//@fn " + s[len("//@stmt "):]
+            is_arm = True
+            is_block = "stmt"
         else:
             is_arm = False
         if s.startswith("//@fn ") or s.startswith("//@item ") or s.startswith("//@lemma "):
@@ -617,7 +627,7 @@ def parse_template(path):
                 continue
             hdr = [x.strip() for x in s[len("//@fn "):].split(" | ")]
             rel, impl, name = hdr[0], hdr[1], hdr[2]
-            spec = {"file": rel, "impl": impl, "name": name, "arm": (hdr[3], hdr[4]) if is_arm else None, "props": [], "ret": None, "clauses": [],
+            spec = {"file": rel, "impl": impl, "name": name, "arm": (hdr[3], hdr[4]) if is_arm else None, "block": is_block, "props": [], "ret": None, "clauses": [],
                     "loops": [], "rewrites": [], "inserts": [], "sigs": [], "attrs": [], "tline": i + 1,
                     "as": None, "novis": False, "external_body": False}
             i += 1
@@ -848,48 +858,70 @@ def generate(unit, template_path, canary=False, extra_fns=()):
                 # signature over the arm's bound variables (the signature is template text; the block is /repo text)
                 arm_rx, arm_sig = spec["arm"]
                 fmask = src.mask[bo:bc + 1]
-                hits = []
-                for h in re.finditer(arm_rx, fmask):
-                    # keep only real arm patterns: after the pattern (and its `{...}` if the regex ends in `{`) comes `=>`
-                    e = h.end()
-                    ob = fmask.find("{", h.start(), h.end())
-                    if ob >= 0:
-                        cb = match_brace(fmask, ob)
-                        if cb >= h.end() - 1:
-                            e = cb + 1      # the regex stops inside the pattern's `{...}`: the pattern ends at its closing brace
-                    rest = fmask[e:e + 200].lstrip()
-                    if rest.startswith("=>") or rest.startswith("|") or re.match(r"if\b", rest):
-                        hits.append(h)
-                if len(hits) != 1:
-                    raise AnchorLost(f"{spec['file']}::{spec['name']}: arm pattern `{arm_rx}` matched {len(hits)}x")
-                k = hits[0].end()
-                ob = fmask.find("{", hits[0].start(), hits[0].end())
-                if ob >= 0 and match_brace(fmask, ob) >= k - 1:
-                    k = match_brace(fmask, ob) + 1
-                depth = 0
-                arrow = None
-                while k < len(fmask) - 1:
-                    ch = fmask[k]
-                    if ch in "([{":
-                        depth += 1
-                    elif ch in ")]}":
-                        depth -= 1
-                    elif depth <= 0 and fmask.startswith("=>", k):
-                        arrow = k
-                        break
-                    k += 1
-                if arrow is None:
-                    raise AnchorLost(f"{spec['file']}::{spec['name']}: no `=>` after arm pattern")
-                b0 = arrow + 2
-                while fmask[b0] in " \n\t":
-                    b0 += 1
-                if fmask[b0] != "{":
-                    raise AnchorLost(f"{spec['file']}::{spec['name']}: arm body is not a block")
-                b1 = match_brace(fmask, b0)
-                s0 = bo + b0
-                bo, bc = bo + b0, bo + b1
-                sig = arm_sig
-                body = src.text[bo:bc + 1]
+                if spec.get("block"):
+                    # block-level extraction: the `{...}` block that follows the (unique) match of the regex inside the
+                    # function - e.g. the body of `if !inputs.is_empty()` - wrapped in a synthesized signature
+                    bh = list(re.finditer(arm_rx, fmask))
+                    if len(bh) != 1:
+                        raise AnchorLost(f"{spec['file']}::{spec['name']}: block anchor `{arm_rx}` matched {len(bh)}x")
+                    b0 = fmask.find("{", bh[0].end())
+                    if b0 < 0:
+                        raise AnchorLost(f"{spec['file']}::{spec['name']}: no block after `{arm_rx}`")
+                    b1 = match_brace(fmask, b0)
+                    s0 = bo + b0
+                    if spec.get("block") == "stmt":
+                        st0 = bh[0].start()
+                        body = "{ " + src.text[bo + st0:bo + b1 + 1] + " }"
+                        s0 = bo + st0
+                        bo, bc = bo + st0, bo + b1
+                    else:
+                        bo, bc = bo + b0, bo + b1
+                        body = src.text[bo:bc + 1]
+                    sig = arm_sig
+                    arm_rx = None
+                if arm_rx is not None:
+                    hits = []
+                    for h in re.finditer(arm_rx, fmask):
+                        # keep only real arm patterns: after the pattern (and its `{...}` if the regex ends in `{`) comes `=>`
+                        e = h.end()
+                        ob = fmask.find("{", h.start(), h.end())
+                        if ob >= 0:
+                            cb = match_brace(fmask, ob)
+                            if cb >= h.end() - 1:
+                                e = cb + 1      # the regex stops inside the pattern's `{...}`: the pattern ends at its closing brace
+                        rest = fmask[e:e + 200].lstrip()
+                        if rest.startswith("=>") or rest.startswith("|") or re.match(r"if\b", rest):
+                            hits.append(h)
+                    if len(hits) != 1:
+                        raise AnchorLost(f"{spec['file']}::{spec['name']}: arm pattern `{arm_rx}` matched {len(hits)}x")
+                    k = hits[0].end()
+                    ob = fmask.find("{", hits[0].start(), hits[0].end())
+                    if ob >= 0 and match_brace(fmask, ob) >= k - 1:
+                        k = match_brace(fmask, ob) + 1
+                    depth = 0
+                    arrow = None
+                    while k < len(fmask) - 1:
+                        ch = fmask[k]
+                        if ch in "([{":
+                            depth += 1
+                        elif ch in ")]}":
+                            depth -= 1
+                        elif depth <= 0 and fmask.startswith("=>", k):
+                            arrow = k
+                            break
+                        k += 1
+                    if arrow is None:
+                        raise AnchorLost(f"{spec['file']}::{spec['name']}: no `=>` after arm pattern")
+                    b0 = arrow + 2
+                    while fmask[b0] in " \n\t":
+                        b0 += 1
+                    if fmask[b0] != "{":
+                        raise AnchorLost(f"{spec['file']}::{spec['name']}: arm body is not a block")
+                    b1 = match_brace(fmask, b0)
+                    s0 = bo + b0
+                    bo, bc = bo + b0, bo + b1
+                    sig = arm_sig
+                    body = src.text[bo:bc + 1]
             where = f"{spec['file']}:{line_of(src.text, s0)}::{spec['name']}"
             body_hash = hashlib.sha256((sig + body).encode()).hexdigest()[:16]
             # --- signature
